@@ -1074,7 +1074,8 @@ func (s *sim) onStabilise() {
 	var maxH int64
 	for _, n := range s.nodes {
 		n.slowUntil = 0
-		n.mach.CrashAt = 0 // crashes are faults: none after the stabilisation point
+		n.skew = [2]int{1, 1} // clock-rate differences are faults too (a 3x slower timer is beyond partial synchrony)
+		n.mach.CrashAt = 0    // crashes are faults: none after the stabilisation point
 		n.pendingCrash = nil
 		if n.up {
 			h := n.bs.Height()
